@@ -109,6 +109,10 @@ func (a *Act) doCall(st *State, com *ssa.CallCommon, pos tokenPos, site ssa.Valu
 		if a.isPureFnValue(com.Value) {
 			return a.applyPure(a.term(com.Value), args, sig)
 		}
+		if name, ok := a.assumedCallback(com.Value); ok {
+			a.u.Trusted["assumed: callback "+name+" does not touch the modelled heap ("+fnName(a.fn)+")"] = true
+			return a.freshResult(st, sig)
+		}
 		return a.opaqueCall(st, "dynamic call "+com.Value.Name()+" in "+fnName(a.fn), sig, pos)
 	}
 	return a.callFn(st, callee, args, env, pos, sig)
@@ -280,7 +284,7 @@ func (a *Act) builtin(st *State, b *ssa.Builtin, com *ssa.CallCommon, pos tokenP
 	case "copy":
 		// element contents after copy are not modelled: havoc the element heaps
 		if sl, ok := com.Args[0].Type().Underlying().(*types.Slice); ok {
-			for _, lh := range a.leafHeaps(sl.Elem()) {
+			for _, lh := range a.elemHeaps(sl.Elem()) {
 				st.setHeap(lh.name, lh.sort, d.Fresh(lh.name, lh.sort))
 			}
 		}
@@ -342,7 +346,7 @@ func (a *Act) appendOp(st *State, com *ssa.CallCommon, pos tokenPos) Term {
 	}
 	srcS := func(i Term) Term { return app("saddr", s, i) }
 	srcT := func(i Term) Term { return app("saddr", t, i) }
-	for _, lh := range a.leafHeaps(et) {
+	for _, lh := range a.elemHeaps(et) {
 		old := st.heap(lh.name, lh.sort)
 		// in-place result
 		var hin Term
@@ -484,4 +488,27 @@ func mentions(e Expr, names map[string]bool) bool {
 		return mentions(v.C, names) || mentions(v.A, names) || mentions(v.B, names)
 	}
 	return false
+}
+
+// assumedCallback: the called value is loaded from a field declared "callback" in the contract.
+func (a *Act) assumedCallback(v ssa.Value) (string, bool) {
+	fc := a.top.fc
+	if fc == nil || len(fc.Callbacks) == 0 {
+		return "", false
+	}
+	ld, ok := v.(*ssa.UnOp)
+	if !ok {
+		return "", false
+	}
+	fa, ok := ld.X.(*ssa.FieldAddr)
+	if !ok {
+		return "", false
+	}
+	name := fieldName(derefType(fa.X.Type()), fa.Field)
+	for _, c := range fc.Callbacks {
+		if c == name {
+			return name, true
+		}
+	}
+	return "", false
 }
